@@ -12,7 +12,7 @@ from pyvc import core
 def main():
     ap = argparse.ArgumentParser()
     ap.add_argument('unit'); ap.add_argument('--out'); ap.add_argument('--edit', action='append', default=[])
-    ap.add_argument('--timeout', type=int, default=int(os.environ.get('PYVC_TIMEOUT_MS', '20000'))); ap.add_argument('--procs', type=int, default=int(os.environ.get('PYVC_PROCS', '16')))
+    ap.add_argument('--timeout', type=int, default=int(os.environ.get('PYVC_TIMEOUT_MS', '10000'))); ap.add_argument('--procs', type=int, default=int(os.environ.get('PYVC_PROCS', '16')))
     ap.add_argument('-v', action='store_true')
     a = ap.parse_args()
     t0 = time.time()
